@@ -1,0 +1,1019 @@
+//! Thin wrappers around crate-private wire codecs for the external verification harness
+//!
+//! Compiled only with the private `__verif` feature. Nothing here has logic of its own: every
+//! function builds the real internal value from plain arguments, calls the real encoder or decoder
+//! and renders the result into plain public types.
+#![allow(missing_docs)]
+
+use std::{
+    net::{IpAddr, SocketAddr, SocketAddrV4, SocketAddrV6},
+    sync::{Arc, Mutex},
+};
+
+use bytes::{Bytes, BytesMut};
+use rand::SeedableRng;
+
+use crate::{
+    ConnectionId, Duration, EndpointConfig, FixedLengthConnectionIdParser, PartialDecode,
+    RandomConnectionIdGenerator, ServerConfig, Side, StreamId, TransportConfig, UNIX_EPOCH, VarInt,
+    coding::{BufMutExt, Codec},
+    crypto::{self, HandshakeTokenKey, HmacKey},
+    frame::{self, Frame, FrameType},
+    packet::{Header, InitialHeader, LongType, PacketNumber},
+    range_set::ArrayRangeSet,
+    token::{IncomingToken, ResetToken, Token, TokenPayload},
+    transport_parameters::{PreferredAddress, TransportParameters},
+};
+
+//
+// Variable-length integers
+//
+
+/// `VarInt::size()`, which is crate-private; `None` if `x` is not representable
+#[inline]
+pub fn varint_size(x: u64) -> Option<usize> {
+    VarInt::from_u64(x).ok().map(VarInt::size)
+}
+
+//
+// Packet numbers
+//
+
+/// `PacketNumber::new(n, largest_acked)` followed by `len()` and `encode()`
+pub fn pn_encode(n: u64, largest_acked: u64) -> (usize, Vec<u8>) {
+    let pn = PacketNumber::new(n, largest_acked);
+    let mut out = Vec::new();
+    pn.encode(&mut out);
+    (pn.len(), out)
+}
+
+/// `PacketNumber::decode(len, bytes)` followed by `expand(expected)`
+pub fn pn_decode_expand(len: usize, bytes: &[u8], expected: u64) -> Result<u64, String> {
+    let mut r = bytes;
+    PacketNumber::decode(len, &mut r)
+        .map(|pn| pn.expand(expected))
+        .map_err(|e| e.to_string())
+}
+
+/// `PacketNumber::decode_len(tag)`
+pub fn pn_decode_len(tag: u8) -> usize {
+    PacketNumber::decode_len(tag)
+}
+
+//
+// Packet headers
+//
+
+/// Plain rendering of `packet::Header`; packet numbers are `(n, largest_acked)` and go through
+/// `PacketNumber::new`
+#[derive(Debug, Clone, PartialEq, Eq)]
+pub enum VHeader {
+    Initial {
+        dcid: Vec<u8>,
+        scid: Vec<u8>,
+        token: Vec<u8>,
+        number: (u64, u64),
+        version: u32,
+    },
+    /// `ty`: 0 = Handshake, 1 = ZeroRtt
+    Long {
+        ty: u8,
+        dcid: Vec<u8>,
+        scid: Vec<u8>,
+        number: (u64, u64),
+        version: u32,
+    },
+    Retry {
+        dcid: Vec<u8>,
+        scid: Vec<u8>,
+        version: u32,
+    },
+    Short {
+        spin: bool,
+        key_phase: bool,
+        dcid: Vec<u8>,
+        number: (u64, u64),
+    },
+    VersionNegotiate {
+        random: u8,
+        dcid: Vec<u8>,
+        scid: Vec<u8>,
+    },
+}
+
+/// Plain rendering of a decoded `packet::Packet`
+#[derive(Debug, Clone, PartialEq, Eq)]
+pub struct VDecoded {
+    /// "Initial", "Handshake", "ZeroRtt", "Retry", "Short" or "VersionNegotiate"
+    pub kind: &'static str,
+    pub dcid: Vec<u8>,
+    pub scid: Option<Vec<u8>>,
+    pub token: Option<Vec<u8>>,
+    /// Truncated packet number as carried on the wire
+    pub pn_trunc: Option<u64>,
+    pub pn_len: Option<usize>,
+    pub version: Option<u32>,
+    pub spin: Option<bool>,
+    pub key_phase: Option<bool>,
+    pub random: Option<u8>,
+    /// `PartialDecode::len()` of the first packet, before `finish`
+    pub packet_len: usize,
+    pub header_data: Vec<u8>,
+    pub payload: Vec<u8>,
+    pub reserved_bits_valid: bool,
+}
+
+/// Header protection that leaves the bytes untouched
+struct IdentityHeaderKey(usize);
+
+impl crypto::HeaderKey for IdentityHeaderKey {
+    fn decrypt(&self, _: usize, _: &mut [u8]) {}
+    fn encrypt(&self, _: usize, _: &mut [u8]) {}
+    fn sample_size(&self) -> usize {
+        self.0
+    }
+}
+
+fn pn(number: (u64, u64)) -> PacketNumber {
+    PacketNumber::new(number.0, number.1)
+}
+
+fn real_header(h: &VHeader) -> Header {
+    match *h {
+        VHeader::Initial {
+            ref dcid,
+            ref scid,
+            ref token,
+            number,
+            version,
+        } => Header::Initial(InitialHeader {
+            dst_cid: ConnectionId::new(dcid),
+            src_cid: ConnectionId::new(scid),
+            token: Bytes::copy_from_slice(token),
+            number: pn(number),
+            version,
+        }),
+        VHeader::Long {
+            ty,
+            ref dcid,
+            ref scid,
+            number,
+            version,
+        } => Header::Long {
+            ty: match ty {
+                0 => LongType::Handshake,
+                _ => LongType::ZeroRtt,
+            },
+            dst_cid: ConnectionId::new(dcid),
+            src_cid: ConnectionId::new(scid),
+            number: pn(number),
+            version,
+        },
+        VHeader::Retry {
+            ref dcid,
+            ref scid,
+            version,
+        } => Header::Retry {
+            dst_cid: ConnectionId::new(dcid),
+            src_cid: ConnectionId::new(scid),
+            version,
+        },
+        VHeader::Short {
+            spin,
+            key_phase,
+            ref dcid,
+            number,
+        } => Header::Short {
+            spin,
+            key_phase,
+            dst_cid: ConnectionId::new(dcid),
+            number: pn(number),
+        },
+        VHeader::VersionNegotiate {
+            random,
+            ref dcid,
+            ref scid,
+        } => Header::VersionNegotiate {
+            random,
+            dst_cid: ConnectionId::new(dcid),
+            src_cid: ConnectionId::new(scid),
+        },
+    }
+}
+
+/// `Header::encode`, append `payload`, `PartialEncode::finish` with identity header protection
+/// (sample size `sample_size`) and no packet protection
+pub fn header_encode(h: &VHeader, payload: &[u8], sample_size: usize) -> Vec<u8> {
+    let mut buf = Vec::new();
+    let partial = real_header(h).encode(&mut buf);
+    buf.extend_from_slice(payload);
+    partial.finish(&mut buf, &IdentityHeaderKey(sample_size), None);
+    buf
+}
+
+/// `PartialDecode::new` followed by `finish` with identity header protection; returns the rendered
+/// first packet and the undecoded rest of the datagram
+pub fn header_decode(
+    bytes: &[u8],
+    local_cid_len: usize,
+    supported_versions: &[u32],
+    grease_quic_bit: bool,
+    sample_size: usize,
+) -> Result<(VDecoded, Option<Vec<u8>>), String> {
+    let (partial, rest) = PartialDecode::new(
+        BytesMut::from(bytes),
+        &FixedLengthConnectionIdParser::new(local_cid_len),
+        supported_versions,
+        grease_quic_bit,
+    )
+    .map_err(|e| format!("{e:?}"))?;
+    let packet_len = partial.len();
+    let packet = partial
+        .finish(Some(&IdentityHeaderKey(sample_size)))
+        .map_err(|e| format!("{e:?}"))?;
+    let reserved_bits_valid = packet.reserved_bits_valid();
+    let mut out = VDecoded {
+        kind: "",
+        dcid: packet.header.dst_cid().to_vec(),
+        scid: None,
+        token: None,
+        pn_trunc: None,
+        pn_len: None,
+        version: None,
+        spin: None,
+        key_phase: None,
+        random: None,
+        packet_len,
+        header_data: packet.header_data.to_vec(),
+        payload: packet.payload.to_vec(),
+        reserved_bits_valid,
+    };
+    if let Some(number) = packet.header.number() {
+        out.pn_len = Some(number.len());
+        out.pn_trunc = Some(match number {
+            PacketNumber::U8(x) => x.into(),
+            PacketNumber::U16(x) => x.into(),
+            PacketNumber::U24(x) => x.into(),
+            PacketNumber::U32(x) => x.into(),
+        });
+    }
+    match packet.header {
+        Header::Initial(InitialHeader {
+            src_cid,
+            ref token,
+            version,
+            ..
+        }) => {
+            out.kind = "Initial";
+            out.scid = Some(src_cid.to_vec());
+            out.token = Some(token.to_vec());
+            out.version = Some(version);
+        }
+        Header::Long {
+            ty,
+            src_cid,
+            version,
+            ..
+        } => {
+            out.kind = match ty {
+                LongType::Handshake => "Handshake",
+                LongType::ZeroRtt => "ZeroRtt",
+            };
+            out.scid = Some(src_cid.to_vec());
+            out.version = Some(version);
+        }
+        Header::Retry {
+            src_cid, version, ..
+        } => {
+            out.kind = "Retry";
+            out.scid = Some(src_cid.to_vec());
+            out.version = Some(version);
+        }
+        Header::Short {
+            spin, key_phase, ..
+        } => {
+            out.kind = "Short";
+            out.spin = Some(spin);
+            out.key_phase = Some(key_phase);
+        }
+        Header::VersionNegotiate {
+            random, src_cid, ..
+        } => {
+            out.kind = "VersionNegotiate";
+            out.scid = Some(src_cid.to_vec());
+            out.random = Some(random);
+        }
+    }
+    Ok((out, rest.map(|x| x.to_vec())))
+}
+
+//
+// Connection IDs and reset tokens
+//
+
+/// `ConnectionId::encode_long`
+pub fn cid_encode_long(cid: &[u8]) -> Vec<u8> {
+    let mut out = Vec::new();
+    ConnectionId::new(cid).encode_long(&mut out);
+    out
+}
+
+/// `ConnectionId::decode_long`; returns the CID and the number of bytes consumed
+pub fn cid_decode_long(bytes: &[u8]) -> Option<(Vec<u8>, usize)> {
+    let mut r = bytes;
+    let cid = ConnectionId::decode_long(&mut r)?;
+    Some((cid.to_vec(), bytes.len() - r.len()))
+}
+
+/// `ResetToken::new`
+pub fn reset_token(key: &dyn HmacKey, cid: &[u8]) -> [u8; 16] {
+    let token = ResetToken::new(key, ConnectionId::new(cid));
+    let mut out = [0; 16];
+    out.copy_from_slice(&token);
+    out
+}
+
+//
+// Frames
+//
+
+/// Flat rendering of a decoded `frame::Frame`
+#[derive(Debug, Clone, PartialEq, Eq, Default)]
+pub struct VFrame {
+    /// Variant name of `frame::Frame` (`Close` is split into "ConnectionClose" and
+    /// "ApplicationClose")
+    pub name: &'static str,
+    /// Numeric fields in declaration order (booleans as 0/1, `Dir` as 0 = Bi / 1 = Uni, optional
+    /// groups preceded by a 0/1 presence flag)
+    pub nums: Vec<u64>,
+    /// Primary byte string field (data, token, reason, connection ID)
+    pub bytes: Vec<u8>,
+    /// Secondary byte string field (reset token)
+    pub bytes2: Vec<u8>,
+    /// ACK ranges as yielded by `Ack::iter()`, inclusive bounds, descending
+    pub ranges: Vec<(u64, u64)>,
+    /// `Frame::ty()` encoded with the real `FrameType` encoder
+    pub ty: Vec<u8>,
+    pub ack_eliciting: bool,
+}
+
+fn render(f: &Frame) -> VFrame {
+    let mut v = VFrame {
+        ty: {
+            let mut out = Vec::new();
+            f.ty().encode(&mut out);
+            out
+        },
+        ack_eliciting: f.is_ack_eliciting(),
+        ..VFrame::default()
+    };
+    match *f {
+        Frame::Padding => v.name = "Padding",
+        Frame::Ping => v.name = "Ping",
+        Frame::Ack(ref x) => {
+            v.name = "Ack";
+            v.nums = vec![x.largest, x.delay];
+            match x.ecn {
+                None => v.nums.push(0),
+                Some(e) => v.nums.extend([1, e.ect0, e.ect1, e.ce]),
+            }
+            v.ranges = x.iter().map(|r| (*r.start(), *r.end())).collect();
+        }
+        Frame::ResetStream(ref x) => {
+            v.name = "ResetStream";
+            v.nums = vec![
+                x.id.into(),
+                x.error_code.into_inner(),
+                x.final_offset.into_inner(),
+            ];
+        }
+        Frame::StopSending(ref x) => {
+            v.name = "StopSending";
+            v.nums = vec![x.id.into(), x.error_code.into_inner()];
+        }
+        Frame::Crypto(ref x) => {
+            v.name = "Crypto";
+            v.nums = vec![x.offset];
+            v.bytes = x.data.to_vec();
+        }
+        Frame::NewToken(ref x) => {
+            v.name = "NewToken";
+            v.bytes = x.token.to_vec();
+        }
+        Frame::Stream(ref x) => {
+            v.name = "Stream";
+            v.nums = vec![x.id.into(), x.offset, x.fin.into()];
+            v.bytes = x.data.to_vec();
+        }
+        Frame::MaxData(x) => {
+            v.name = "MaxData";
+            v.nums = vec![x.into_inner()];
+        }
+        Frame::MaxStreamData { id, offset } => {
+            v.name = "MaxStreamData";
+            v.nums = vec![id.into(), offset];
+        }
+        Frame::MaxStreams { dir, count } => {
+            v.name = "MaxStreams";
+            v.nums = vec![dir as u64, count];
+        }
+        Frame::DataBlocked { offset } => {
+            v.name = "DataBlocked";
+            v.nums = vec![offset];
+        }
+        Frame::StreamDataBlocked { id, offset } => {
+            v.name = "StreamDataBlocked";
+            v.nums = vec![id.into(), offset];
+        }
+        Frame::StreamsBlocked { dir, limit } => {
+            v.name = "StreamsBlocked";
+            v.nums = vec![dir as u64, limit];
+        }
+        Frame::NewConnectionId(ref x) => {
+            v.name = "NewConnectionId";
+            v.nums = vec![x.sequence, x.retire_prior_to];
+            v.bytes = x.id.to_vec();
+            v.bytes2 = x.reset_token.to_vec();
+        }
+        Frame::RetireConnectionId { sequence } => {
+            v.name = "RetireConnectionId";
+            v.nums = vec![sequence];
+        }
+        Frame::PathChallenge(x) => {
+            v.name = "PathChallenge";
+            v.nums = vec![x];
+        }
+        Frame::PathResponse(x) => {
+            v.name = "PathResponse";
+            v.nums = vec![x];
+        }
+        Frame::Close(frame::Close::Connection(ref x)) => {
+            v.name = "ConnectionClose";
+            v.nums = vec![x.error_code.into()];
+            match x.frame_type {
+                None => v.nums.push(0),
+                Some(ty) => {
+                    let mut enc = Vec::new();
+                    ty.encode(&mut enc);
+                    let ty = VarInt::decode(&mut &enc[..]).unwrap().into_inner();
+                    v.nums.extend([1, ty]);
+                }
+            }
+            v.bytes = x.reason.to_vec();
+        }
+        Frame::Close(frame::Close::Application(ref x)) => {
+            v.name = "ApplicationClose";
+            v.nums = vec![x.error_code.into_inner()];
+            v.bytes = x.reason.to_vec();
+        }
+        Frame::Datagram(ref x) => {
+            v.name = "Datagram";
+            v.bytes = x.data.to_vec();
+        }
+        Frame::AckFrequency(ref x) => {
+            v.name = "AckFrequency";
+            v.nums = vec![
+                x.sequence.into_inner(),
+                x.ack_eliciting_threshold.into_inner(),
+                x.request_max_ack_delay.into_inner(),
+                x.reordering_threshold.into_inner(),
+            ];
+        }
+        Frame::ImmediateAck => v.name = "ImmediateAck",
+        Frame::HandshakeDone => v.name = "HandshakeDone",
+    }
+    v
+}
+
+/// `frame::Iter` over `payload`, each frame rendered with `{:?}`; an `Err` item or a constructor
+/// error ends the list with `Err`
+pub fn frames_decode(payload: &[u8]) -> Result<Vec<String>, String> {
+    let iter = frame::Iter::new(Bytes::copy_from_slice(payload)).map_err(|e| format!("{e:?}"))?;
+    let mut out = Vec::new();
+    for item in iter {
+        match item {
+            Ok(f) => out.push(format!("{f:?}")),
+            Err(e) => return Err(format!("{e:?}")),
+        }
+    }
+    Ok(out)
+}
+
+/// `frame::Iter` over `payload`, each frame rendered field by field
+pub fn frames_decode_fields(payload: &[u8]) -> Result<Vec<VFrame>, String> {
+    let iter = frame::Iter::new(Bytes::copy_from_slice(payload)).map_err(|e| format!("{e:?}"))?;
+    let mut out = Vec::new();
+    for item in iter {
+        match item {
+            Ok(f) => out.push(render(&f)),
+            Err(e) => return Err(format!("{e:?}")),
+        }
+    }
+    Ok(out)
+}
+
+fn varint(x: u64) -> VarInt {
+    VarInt::from_u64(x).unwrap()
+}
+
+fn stream_id(x: u64) -> StreamId {
+    StreamId::from(varint(x))
+}
+
+fn frame_type(x: u64) -> FrameType {
+    let mut enc = Vec::new();
+    enc.write_var(x);
+    FrameType::decode(&mut &enc[..]).unwrap()
+}
+
+/// Encoding of a named `FrameType` constant, as written by `buf.write(FrameType::X)`
+pub fn frame_type_bytes(name: &str) -> Option<Vec<u8>> {
+    let ty = match name {
+        "PADDING" => FrameType::PADDING,
+        "PING" => FrameType::PING,
+        "ACK" => FrameType::ACK,
+        "ACK_ECN" => FrameType::ACK_ECN,
+        "RESET_STREAM" => FrameType::RESET_STREAM,
+        "STOP_SENDING" => FrameType::STOP_SENDING,
+        "CRYPTO" => FrameType::CRYPTO,
+        "NEW_TOKEN" => FrameType::NEW_TOKEN,
+        "MAX_DATA" => FrameType::MAX_DATA,
+        "MAX_STREAM_DATA" => FrameType::MAX_STREAM_DATA,
+        "MAX_STREAMS_BIDI" => FrameType::MAX_STREAMS_BIDI,
+        "MAX_STREAMS_UNI" => FrameType::MAX_STREAMS_UNI,
+        "DATA_BLOCKED" => FrameType::DATA_BLOCKED,
+        "STREAM_DATA_BLOCKED" => FrameType::STREAM_DATA_BLOCKED,
+        "STREAMS_BLOCKED_BIDI" => FrameType::STREAMS_BLOCKED_BIDI,
+        "STREAMS_BLOCKED_UNI" => FrameType::STREAMS_BLOCKED_UNI,
+        "NEW_CONNECTION_ID" => FrameType::NEW_CONNECTION_ID,
+        "RETIRE_CONNECTION_ID" => FrameType::RETIRE_CONNECTION_ID,
+        "PATH_CHALLENGE" => FrameType::PATH_CHALLENGE,
+        "PATH_RESPONSE" => FrameType::PATH_RESPONSE,
+        "CONNECTION_CLOSE" => FrameType::CONNECTION_CLOSE,
+        "APPLICATION_CLOSE" => FrameType::APPLICATION_CLOSE,
+        "HANDSHAKE_DONE" => FrameType::HANDSHAKE_DONE,
+        "ACK_FREQUENCY" => FrameType::ACK_FREQUENCY,
+        "IMMEDIATE_ACK" => FrameType::IMMEDIATE_ACK,
+        _ => return None,
+    };
+    let mut out = Vec::new();
+    ty.encode(&mut out);
+    Some(out)
+}
+
+/// `StreamMeta::encode(with_length)` followed by the data, as `write_stream_frames` does
+pub fn enc_stream(id: u64, offset: u64, fin: bool, data: &[u8], with_length: bool) -> Vec<u8> {
+    let mut out = Vec::new();
+    frame::StreamMeta {
+        id: stream_id(id),
+        offsets: offset..offset + data.len() as u64,
+        fin,
+    }
+    .encode(with_length, &mut out);
+    out.extend_from_slice(data);
+    out
+}
+
+/// `Ack::encode`; `ranges` are half-open `start..end` and are inserted into an `ArrayRangeSet`
+pub fn enc_ack(delay: u64, ranges: &[(u64, u64)], ecn: Option<(u64, u64, u64)>) -> Vec<u8> {
+    let mut set = ArrayRangeSet::new();
+    for &(start, end) in ranges {
+        set.insert(start..end);
+    }
+    let ecn = ecn.map(|(ect0, ect1, ce)| frame::EcnCounts { ect0, ect1, ce });
+    let mut out = Vec::new();
+    frame::Ack::encode(delay, &set, ecn.as_ref(), &mut out);
+    out
+}
+
+pub fn enc_reset_stream(id: u64, error_code: u64, final_offset: u64) -> Vec<u8> {
+    let mut out = Vec::new();
+    frame::ResetStream {
+        id: stream_id(id),
+        error_code: varint(error_code),
+        final_offset: varint(final_offset),
+    }
+    .encode(&mut out);
+    out
+}
+
+pub fn enc_stop_sending(id: u64, error_code: u64) -> Vec<u8> {
+    let mut out = Vec::new();
+    frame::StopSending {
+        id: stream_id(id),
+        error_code: varint(error_code),
+    }
+    .encode(&mut out);
+    out
+}
+
+pub fn enc_crypto(offset: u64, data: &[u8]) -> Vec<u8> {
+    let mut out = Vec::new();
+    frame::Crypto {
+        offset,
+        data: Bytes::copy_from_slice(data),
+    }
+    .encode(&mut out);
+    out
+}
+
+/// `NewToken::encode`; also returns `NewToken::size()`
+pub fn enc_new_token(token: &[u8]) -> (Vec<u8>, usize) {
+    let mut out = Vec::new();
+    let frame = frame::NewToken {
+        token: Bytes::copy_from_slice(token),
+    };
+    frame.encode(&mut out);
+    (out, frame.size())
+}
+
+pub fn enc_new_connection_id(
+    sequence: u64,
+    retire_prior_to: u64,
+    cid: &[u8],
+    reset_token: [u8; 16],
+) -> Vec<u8> {
+    let mut out = Vec::new();
+    frame::NewConnectionId {
+        sequence,
+        retire_prior_to,
+        id: ConnectionId::new(cid),
+        reset_token: reset_token.into(),
+    }
+    .encode(&mut out);
+    out
+}
+
+/// `ConnectionClose::encode(out, max_len)`; `error_code` and `frame_type` are built through their
+/// real decoders because their constructors are private
+pub fn enc_close_connection(
+    error_code: u64,
+    frame_type_: Option<u64>,
+    reason: &[u8],
+    max_len: usize,
+) -> Vec<u8> {
+    let mut enc = Vec::new();
+    enc.write_var(error_code);
+    let mut out = Vec::new();
+    frame::Close::Connection(frame::ConnectionClose {
+        error_code: Codec::decode(&mut &enc[..]).unwrap(),
+        frame_type: frame_type_.map(frame_type),
+        reason: Bytes::copy_from_slice(reason),
+    })
+    .encode(&mut out, max_len);
+    out
+}
+
+/// `ApplicationClose::encode(out, max_len)`
+pub fn enc_close_application(error_code: u64, reason: &[u8], max_len: usize) -> Vec<u8> {
+    let mut out = Vec::new();
+    frame::Close::Application(frame::ApplicationClose {
+        error_code: varint(error_code),
+        reason: Bytes::copy_from_slice(reason),
+    })
+    .encode(&mut out, max_len);
+    out
+}
+
+/// `Datagram::encode(with_length)`; also returns `Datagram::size(with_length)`
+pub fn enc_datagram(data: &[u8], with_length: bool) -> (Vec<u8>, usize) {
+    let mut out = Vec::new();
+    let frame = frame::Datagram {
+        data: Bytes::copy_from_slice(data),
+    };
+    frame.encode(with_length, &mut out);
+    (out, frame.size(with_length))
+}
+
+pub fn enc_ack_frequency(
+    sequence: u64,
+    ack_eliciting_threshold: u64,
+    request_max_ack_delay: u64,
+    reordering_threshold: u64,
+) -> Vec<u8> {
+    let mut out = Vec::new();
+    frame::AckFrequency {
+        sequence: varint(sequence),
+        ack_eliciting_threshold: varint(ack_eliciting_threshold),
+        request_max_ack_delay: varint(request_max_ack_delay),
+        reordering_threshold: varint(reordering_threshold),
+    }
+    .encode(&mut out);
+    out
+}
+
+//
+// Address validation tokens
+//
+
+/// Rendering of `token::IncomingToken` plus what the token log was shown
+#[derive(Debug, Clone, PartialEq, Eq)]
+pub struct VIncomingToken {
+    pub retry_src_cid: Option<Vec<u8>>,
+    pub orig_dst_cid: Vec<u8>,
+    pub validated: bool,
+    /// `(nonce, issued seconds since the epoch)` passed to `TokenLog::check_and_insert`, which
+    /// happens for validation tokens that decoded, matched the address and have not expired
+    pub logged: Option<(u128, u64)>,
+}
+
+struct FixedNonce(u128);
+
+impl rand::TryRng for FixedNonce {
+    type Error = std::convert::Infallible;
+    fn try_next_u32(&mut self) -> Result<u32, Self::Error> {
+        Ok(self.try_next_u64()? as u32)
+    }
+    fn try_next_u64(&mut self) -> Result<u64, Self::Error> {
+        let out = self.0 as u64;
+        self.0 = self.0.rotate_right(64);
+        Ok(out)
+    }
+    fn try_fill_bytes(&mut self, dst: &mut [u8]) -> Result<(), Self::Error> {
+        for chunk in dst.chunks_mut(8) {
+            let word = self.try_next_u64()?.to_le_bytes();
+            chunk.copy_from_slice(&word[..chunk.len()]);
+        }
+        Ok(())
+    }
+}
+
+/// `Token::new(TokenPayload::Retry { .. }, rng).encode(key)`; `nonce_seed` feeds the `rng`
+pub fn token_encode_retry(
+    key: &dyn HandshakeTokenKey,
+    address: SocketAddr,
+    orig_dst_cid: &[u8],
+    issued_secs: u64,
+    nonce_seed: u128,
+) -> Vec<u8> {
+    Token::new(
+        TokenPayload::Retry {
+            address,
+            orig_dst_cid: ConnectionId::new(orig_dst_cid),
+            issued: UNIX_EPOCH + Duration::from_secs(issued_secs),
+        },
+        &mut FixedNonce(nonce_seed),
+    )
+    .encode(key)
+}
+
+/// `Token::new(TokenPayload::Validation { .. }, rng).encode(key)`
+pub fn token_encode_validation(
+    key: &dyn HandshakeTokenKey,
+    ip: IpAddr,
+    issued_secs: u64,
+    nonce_seed: u128,
+) -> Vec<u8> {
+    Token::new(
+        TokenPayload::Validation {
+            ip,
+            issued: UNIX_EPOCH + Duration::from_secs(issued_secs),
+        },
+        &mut FixedNonce(nonce_seed),
+    )
+    .encode(key)
+}
+
+struct FixedTime(crate::SystemTime);
+
+impl crate::TimeSource for FixedTime {
+    fn now(&self) -> crate::SystemTime {
+        self.0
+    }
+}
+
+#[derive(Default)]
+struct RecordingLog(Mutex<Option<(u128, u64)>>);
+
+impl crate::TokenLog for RecordingLog {
+    fn check_and_insert(
+        &self,
+        nonce: u128,
+        issued: crate::SystemTime,
+        _: Duration,
+    ) -> Result<(), crate::TokenReuseError> {
+        let secs = issued
+            .duration_since(UNIX_EPOCH)
+            .map_or(u64::MAX, |d| d.as_secs());
+        *self.0.lock().unwrap() = Some((nonce, secs));
+        Ok(())
+    }
+}
+
+struct NullServerCrypto;
+
+impl crypto::ServerConfig for NullServerCrypto {
+    fn initial_keys(
+        &self,
+        _: u32,
+        _: ConnectionId,
+    ) -> Result<crypto::Keys, crypto::UnsupportedVersion> {
+        Err(crypto::UnsupportedVersion)
+    }
+    fn retry_tag(&self, _: u32, _: ConnectionId, _: &[u8]) -> [u8; 16] {
+        [0; 16]
+    }
+    fn start_session(self: Arc<Self>, _: u32, _: &TransportParameters) -> Box<dyn crypto::Session> {
+        unimplemented!()
+    }
+}
+
+/// `IncomingToken::from_header` (the only crate-visible caller of the private `Token::decode`) for
+/// an Initial header carrying `token` with destination CID `header_dcid`, received from `remote`,
+/// under a server config with the given token key, clock and lifetimes and a token log that
+/// accepts everything. `Err(())` is `InvalidRetryTokenError`.
+pub fn token_check(
+    key: Arc<dyn HandshakeTokenKey>,
+    token: &[u8],
+    header_dcid: &[u8],
+    remote: SocketAddr,
+    now_secs: u64,
+    retry_lifetime_secs: u64,
+    validation_lifetime_secs: u64,
+) -> Result<VIncomingToken, ()> {
+    let log = Arc::new(RecordingLog::default());
+    let mut config = ServerConfig::new(Arc::new(NullServerCrypto), key);
+    config.retry_token_lifetime = Duration::from_secs(retry_lifetime_secs);
+    config.validation_token.lifetime = Duration::from_secs(validation_lifetime_secs);
+    config.validation_token.log = log.clone();
+    config.time_source = Arc::new(FixedTime(UNIX_EPOCH + Duration::from_secs(now_secs)));
+    let header = InitialHeader {
+        dst_cid: ConnectionId::new(header_dcid),
+        src_cid: ConnectionId::new(&[]),
+        token: Bytes::copy_from_slice(token),
+        number: PacketNumber::U8(0),
+        version: crate::DEFAULT_SUPPORTED_VERSIONS[0],
+    };
+    let incoming = IncomingToken::from_header(&header, &config, remote).map_err(|_| ())?;
+    let logged = *log.0.lock().unwrap();
+    Ok(VIncomingToken {
+        retry_src_cid: incoming.retry_src_cid.map(|x| x.to_vec()),
+        orig_dst_cid: incoming.orig_dst_cid.to_vec(),
+        validated: incoming.validated,
+        logged,
+    })
+}
+
+//
+// Transport parameters
+//
+
+/// Plain rendering of `TransportParameters`
+#[derive(Debug, Clone, PartialEq, Eq)]
+pub struct VTransportParameters {
+    pub max_idle_timeout: u64,
+    pub max_udp_payload_size: u64,
+    pub initial_max_data: u64,
+    pub initial_max_stream_data_bidi_local: u64,
+    pub initial_max_stream_data_bidi_remote: u64,
+    pub initial_max_stream_data_uni: u64,
+    pub initial_max_streams_bidi: u64,
+    pub initial_max_streams_uni: u64,
+    pub ack_delay_exponent: u64,
+    pub max_ack_delay: u64,
+    pub active_connection_id_limit: u64,
+    pub disable_active_migration: bool,
+    pub max_datagram_frame_size: Option<u64>,
+    pub initial_src_cid: Option<Vec<u8>>,
+    pub grease_quic_bit: bool,
+    pub min_ack_delay: Option<u64>,
+    pub original_dst_cid: Option<Vec<u8>>,
+    pub retry_src_cid: Option<Vec<u8>>,
+    pub stateless_reset_token: Option<[u8; 16]>,
+    pub preferred_address: Option<VPreferredAddress>,
+    /// Write-only: seed for the crate's own generator of the reserved ("grease") parameter
+    /// (`TransportParameters::new` with a seeded `StdRng`); never set by `tp_read`
+    pub grease_seed: Option<u64>,
+    /// Write-only: permutation of `0..21` giving the serialization order; never set by `tp_read`
+    pub write_order: Option<Vec<u8>>,
+}
+
+#[derive(Debug, Clone, PartialEq, Eq)]
+pub struct VPreferredAddress {
+    pub address_v4: Option<SocketAddrV4>,
+    pub address_v6: Option<SocketAddrV6>,
+    pub connection_id: Vec<u8>,
+    pub stateless_reset_token: [u8; 16],
+}
+
+struct NullHmacKey;
+
+impl HmacKey for NullHmacKey {
+    fn sign(&self, _: &[u8], _: &mut [u8]) {}
+    fn signature_len(&self) -> usize {
+        32
+    }
+    fn verify(&self, _: &[u8], _: &[u8]) -> Result<(), crypto::CryptoError> {
+        Ok(())
+    }
+}
+
+fn tp_render(p: &TransportParameters) -> VTransportParameters {
+    VTransportParameters {
+        max_idle_timeout: p.max_idle_timeout.into_inner(),
+        max_udp_payload_size: p.max_udp_payload_size.into_inner(),
+        initial_max_data: p.initial_max_data.into_inner(),
+        initial_max_stream_data_bidi_local: p.initial_max_stream_data_bidi_local.into_inner(),
+        initial_max_stream_data_bidi_remote: p.initial_max_stream_data_bidi_remote.into_inner(),
+        initial_max_stream_data_uni: p.initial_max_stream_data_uni.into_inner(),
+        initial_max_streams_bidi: p.initial_max_streams_bidi.into_inner(),
+        initial_max_streams_uni: p.initial_max_streams_uni.into_inner(),
+        ack_delay_exponent: p.ack_delay_exponent.into_inner(),
+        max_ack_delay: p.max_ack_delay.into_inner(),
+        active_connection_id_limit: p.active_connection_id_limit.into_inner(),
+        disable_active_migration: p.disable_active_migration,
+        max_datagram_frame_size: p.max_datagram_frame_size.map(VarInt::into_inner),
+        initial_src_cid: p.initial_src_cid.map(|x| x.to_vec()),
+        grease_quic_bit: p.grease_quic_bit,
+        min_ack_delay: p.min_ack_delay.map(VarInt::into_inner),
+        original_dst_cid: p.original_dst_cid.map(|x| x.to_vec()),
+        retry_src_cid: p.retry_src_cid.map(|x| x.to_vec()),
+        stateless_reset_token: p.stateless_reset_token.map(|x| {
+            let mut out = [0; 16];
+            out.copy_from_slice(&x);
+            out
+        }),
+        preferred_address: p.preferred_address.map(|x| VPreferredAddress {
+            address_v4: x.address_v4,
+            address_v6: x.address_v6,
+            connection_id: x.connection_id.to_vec(),
+            stateless_reset_token: {
+                let mut out = [0; 16];
+                out.copy_from_slice(&x.stateless_reset_token);
+                out
+            },
+        }),
+        grease_seed: None,
+        write_order: None,
+    }
+}
+
+fn tp_build(v: &VTransportParameters) -> TransportParameters {
+    let cid = |x: &Option<Vec<u8>>| x.as_ref().map(|x| ConnectionId::new(x));
+    let grease = v.grease_seed.map(|seed| {
+        TransportParameters::new(
+            &TransportConfig::default(),
+            &EndpointConfig::new(Arc::new(NullHmacKey)),
+            &RandomConnectionIdGenerator::new(8),
+            ConnectionId::new(&[]),
+            None,
+            &mut rand::rngs::StdRng::seed_from_u64(seed),
+        )
+    });
+    TransportParameters {
+        max_idle_timeout: varint(v.max_idle_timeout),
+        max_udp_payload_size: varint(v.max_udp_payload_size),
+        initial_max_data: varint(v.initial_max_data),
+        initial_max_stream_data_bidi_local: varint(v.initial_max_stream_data_bidi_local),
+        initial_max_stream_data_bidi_remote: varint(v.initial_max_stream_data_bidi_remote),
+        initial_max_stream_data_uni: varint(v.initial_max_stream_data_uni),
+        initial_max_streams_bidi: varint(v.initial_max_streams_bidi),
+        initial_max_streams_uni: varint(v.initial_max_streams_uni),
+        ack_delay_exponent: varint(v.ack_delay_exponent),
+        max_ack_delay: varint(v.max_ack_delay),
+        active_connection_id_limit: varint(v.active_connection_id_limit),
+        disable_active_migration: v.disable_active_migration,
+        max_datagram_frame_size: v.max_datagram_frame_size.map(varint),
+        initial_src_cid: cid(&v.initial_src_cid),
+        grease_quic_bit: v.grease_quic_bit,
+        min_ack_delay: v.min_ack_delay.map(varint),
+        original_dst_cid: cid(&v.original_dst_cid),
+        retry_src_cid: cid(&v.retry_src_cid),
+        stateless_reset_token: v.stateless_reset_token.map(Into::into),
+        preferred_address: v.preferred_address.as_ref().map(|x| PreferredAddress {
+            address_v4: x.address_v4,
+            address_v6: x.address_v6,
+            connection_id: ConnectionId::new(&x.connection_id),
+            stateless_reset_token: x.stateless_reset_token.into(),
+        }),
+        grease_transport_parameter: grease.and_then(|x| x.grease_transport_parameter),
+        write_order: v.write_order.as_ref().map(|x| {
+            let mut order = [0; 21];
+            order.copy_from_slice(x);
+            order
+        }),
+    }
+}
+
+/// `TransportParameters::default()`
+pub fn tp_default() -> VTransportParameters {
+    tp_render(&TransportParameters::default())
+}
+
+/// `TransportParameters::write`
+pub fn tp_write(v: &VTransportParameters) -> Vec<u8> {
+    let mut out = Vec::new();
+    tp_build(v).write(&mut out);
+    out
+}
+
+/// `TransportParameters::read(side, bytes)` where `side` is the side doing the reading
+pub fn tp_read(reader_is_server: bool, bytes: &[u8]) -> Result<VTransportParameters, String> {
+    let side = match reader_is_server {
+        true => Side::Server,
+        false => Side::Client,
+    };
+    TransportParameters::read(side, &mut &bytes[..])
+        .map(|p| tp_render(&p))
+        .map_err(|e| format!("{e:?}"))
+}
